@@ -8,6 +8,7 @@ package c18
 import (
 	"encoding/json"
 	"fmt"
+	"os"
 	"sort"
 	"strings"
 
@@ -38,6 +39,11 @@ var pool = []text{
 	{"b1.yang", `module b1 { ` + H("b1") + ` typedef bt { type nosuch; } bogus x; }`, "", false},
 	{"b2.yang", `module b2 { ` + H("b2") + ` container c { typedef bt2 { type int8; } typedef bt3 { type string { length "10..1"; } } } grouping bg { typedef bt4 { type nosuch; } typedef bt5 { type g:t; } leaf bgl { type bt4; } } rpc brpc { input { typedef bt6 { type bt6; } } } identity bi; leaf l { type string; } leaf m { bogus y; } }`, "", false},
 	{"gdup.yang", `module g { ` + H("g") + ` leaf other { type string; } typedef t { type int64; } }`, "g", true},
+	// two revisions of one module, and an importer that pins the older one: once both are loaded the
+	// namespace is that of two modules
+	{"v1.yang", `module v { ` + H("v") + ` revision 2020-01-01; container vc { leaf old { type string; } } identity vi; }`, "v@2020-01-01", true},
+	{"v2.yang", `module v { ` + H("v") + ` revision 2021-06-01; revision 2020-01-01; container vc { leaf new { type string; } } identity vi; identity vj { base vi; } }`, "v@2021-06-01", true},
+	{"w.yang", `module w { ` + H("w") + ` import v { prefix v; revision-date 2020-01-01; } identity wi { base v:vi; } augment /v:vc { leaf wa { type string; } } }`, "w", true},
 	{"nomand.yang", `module nm { prefix nm; typedef z { type int8; } container nc { typedef nz { type int8 { range "5..1"; } } list nl { typedef nz2 { type nosuch2; } key k; leaf k { type nz2; } } } }`, "", false},
 }
 
@@ -71,6 +77,8 @@ type Input struct {
 	History []string       `json:"history"`
 	Ops     []int          `json:"ops"`
 	Scale   *scalekit.Case `json:"scale,omitempty"`
+	// Files: the operations are those of the file space (files.go)
+	Files bool `json:"files,omitempty"`
 }
 
 type fail struct{ fp, exp, obs string }
@@ -257,6 +265,19 @@ func queries(ms *yang.Modules) string {
 			continue
 		}
 		got, err := ms.FindModuleByNamespace(m.Namespace.Name)
+		sameNS := map[*yang.Module]bool{}
+		for _, o := range ms.Modules {
+			if o.Namespace != nil && o.Namespace.Name == m.Namespace.Name {
+				sameNS[o] = true
+			}
+		}
+		if len(sameNS) > 1 {
+			// two loaded modules (revisions) of one namespace: the lookup says so
+			if err == nil {
+				return fmt.Sprintf("FindModuleByNamespace(%s) = %s although %d loaded modules have that namespace", m.Namespace.Name, src(got), len(sameNS))
+			}
+			continue
+		}
 		if err != nil || got != m {
 			return fmt.Sprintf("FindModuleByNamespace(%s) = %s (%v), registered: %s", m.Namespace.Name, src(got), err, src(m))
 		}
@@ -292,7 +313,7 @@ func shards(tier string) []string {
 			out = append(out, fmt.Sprintf("h/%d/%d", a, b))
 		}
 	}
-	return append(out, scalekit.ShardNames()...)
+	return append(append(out, scalekit.ShardNames()...), fileShards()...)
 }
 
 func describe(h []int) Input {
@@ -306,6 +327,10 @@ func describe(h []int) Input {
 func run(c *core.Ctx) {
 	if strings.HasPrefix(c.Shard, "scale/") {
 		scalekit.Run(c, c.Shard, scaleCases(c.Tier), checkScale, func(cs scalekit.Case) any { return Input{Scale: &cs} })
+		return
+	}
+	if strings.HasPrefix(c.Shard, "files/") {
+		runFiles(c)
 		return
 	}
 	var a, b int
@@ -395,7 +420,16 @@ func replay(tier string, raw json.RawMessage) (bool, string, string) {
 		v := checkScale(*in.Scale)
 		return v.Fp != "", "scale:" + v.Fp, fmt.Sprintf("expected %s\nobserved %s", v.Exp, v.Obs)
 	}
-	f, _, _ := runHistory(in.Ops)
+	var f *fail
+	if in.Files {
+		f, _, _ = runFileHistory(in.Ops)
+		if fw != nil {
+			os.RemoveAll(fw.root)
+			fw = nil
+		}
+	} else {
+		f, _, _ = runHistory(in.Ops)
+	}
 	if f == nil {
 		return false, "", "agrees with the batch run"
 	}
